@@ -30,7 +30,10 @@ ASSUMPTIONS = ["mode statistics are finite with Sigma positive definite and dof 
                "detailed balance is stated per pair of states through the Mahalanobis scalars; one step uses one sigma per cluster "
                "(C03_sigma_fixed_within_step); adaptation across steps is not covered",
                "KNOWN defects F16 (hard boundary redraw) and F17 (tpCN on folded coordinates) are excluded from the proved statement "
-               "and reported as KNOWN-FINDING lines"]
+               "and reported as KNOWN-FINDING lines",
+               "reflective coordinates in d >= 2: proved only for increment densities that are even in each reflective coordinate "
+               "(uncorrelated there); with a correlated covariance detailed balance FAILS (finding F21_reflective_correlated, "
+               "Lean counter-example C03_reflect_correlated_asymmetric, witness in harness/witnesses.py)"]
 
 TOL = 1e-9
 
@@ -443,6 +446,49 @@ def one_step_cell(kernel, boundary, sigma, beta, target, seed, n=200000, mode=No
             "edge_ratio": [float(after[0] / expct[0]), float(after[-1] / expct[-1])] if expct[0] > 0 and expct[-1] > 0 else None}
 
 
+def one_step_cell_2d(kernel, boundary, rho, sigma, seed, n=200000, bins=5):
+    """d = 2, uniform target (every in-cube proposal of RWM is accepted), BOTH coordinates of the given boundary type, mode
+    covariance (1/12) [[1, rho], [rho, 1]]: chi-square of the bins x bins histogram after one step against the uniform law"""
+    from scipy.stats import chi2
+    from tempest.modes import ModeStatistics
+    rs = np.random.RandomState(seed)
+    u = rs.rand(n, 2)
+    cov = np.array([[1.0, rho], [rho, 1.0]]) / 12.0
+    ms = ModeStatistics(np.array([[0.5, 0.5]]), np.array([cov]), np.array([3.0]))
+    idx = np.array([0, 1])
+    per = idx if boundary == "periodic" else None
+    refl = idx if boundary == "reflective" else None
+    runner = _runner_cls(kernel)(u, u.copy(), np.zeros(n), None, np.zeros(n, dtype=int), 1.0, ms,
+                                 lambda x: (np.zeros(len(x)), None), lambda t: t, None, 1, 1, per, refl)
+    runner._check_convergence = lambda a: True
+    runner._adapt_sigma = lambda c, a: None
+    runner.sigmas[:] = sigma
+    edges = np.linspace(0.0, 1.0, bins + 1)
+    e = n / bins / bins
+    before = np.histogram2d(u[:, 0], u[:, 1], bins=[edges, edges])[0]
+    with warnings.catch_warnings():
+        warnings.simplefilter("ignore")
+        with common.patched(np.random, "gamma", rs.gamma), common.patched(np.random, "randn", rs.randn), \
+                common.patched(np.random, "rand", rs.rand):
+            out = runner.run()
+    v = np.asarray(out[0])
+    after = np.histogram2d(v[:, 0], v[:, 1], bins=[edges, edges])[0]
+    chi_b = float(((before - e) ** 2 / e).sum())
+    chi_a = float(((after - e) ** 2 / e).sum())
+    thr = float(chi2.isf(CHI2_P, bins * bins - 1))
+    return {"chi2": chi_a, "chi2_before": chi_b, "threshold": thr, "fails": chi_a > thr and chi_b <= thr,
+            "corner_ratio": {"diag": [float(after[0, 0] / e), float(after[-1, -1] / e)],
+                             "anti": [float(after[0, -1] / e), float(after[-1, 0] / e)]}}
+
+
+CELLS_2D = [
+    # (kernel, boundary, rho, sigma, known_id)
+    ("rwm", "periodic", 0.9, 0.5, None),                              # proved: fold_periodic_symmetric_nd
+    ("rwm", "reflective", 0.0, 0.5, None),                            # proved: fold_reflective_symmetric_nd (diagonal Sigma)
+    ("rwm", "reflective", 0.9, 0.5, "F21_reflective_correlated"),     # counter-example C03_reflect_correlated_asymmetric
+]
+
+
 def known_id(kernel, boundary, target):
     """the two recorded defects: any kernel x hard boundary (F16), tpCN x folded coordinate (F17).  The `interior` target keeps
     all mass and (with the narrow mode) all proposals away from the faces, so no boundary rule can be blamed there."""
@@ -456,56 +502,77 @@ def known_id(kernel, boundary, target):
 
 
 def _cells(tier):
-    cells = []
-    # detectors for NEW violations first: interior targets (no boundary can intervene) and RWM on folded coordinates
+    """(detectors, rest): `detectors` are the cells where no recorded defect can be blamed — interior targets (no boundary can
+    intervene) and RWM on folded coordinates; `rest` is the full boundary grid (hard and tpCN-fold cells carry a known_id)."""
+    det = []
     for kernel in ("tpcn", "rwm"):
-        for sigma in (0.5, 0.9):
-            cells.append((kernel, "hard", sigma, 0.5, "interior", 2))
+        det.append((kernel, "hard", 0.5, 0.5, "interior", 1))
+        det.append((kernel, "hard", 0.9, 0.5, "interior", 2))
     for boundary in ("periodic", "reflective"):
         for target in ("tilted", "uniform", "corner"):
-            cells.append(("rwm", boundary, 0.5, 1.0, target, 1))
+            det.append(("rwm", boundary, 0.5, 1.0, target, 1))
+    if tier != "quick":
+        for kernel in ("tpcn", "rwm"):
+            det.append((kernel, "hard", 0.2, 1.0, "interior", 2))
+            for boundary in ("periodic", "reflective"):
+                det.append((kernel, boundary, 0.2, 0.5, "interior", 2))
+    rest = []
     sig_all = (0.2, 0.5, 0.9)
     for kernel in ("tpcn", "rwm"):
         for boundary in ("hard", "periodic", "reflective"):
             for target in ("uniform", "tilted", "corner"):
                 for sigma in (sig_all if (tier != "quick" or target == "uniform") else (0.5,)):
                     cell = (kernel, boundary, sigma, 1.0, target, 1)
-                    if cell not in cells:
-                        cells.append(cell)
-    if tier != "quick":
-        for kernel in ("tpcn", "rwm"):
-            for boundary in ("periodic", "reflective"):
-                cells.append((kernel, boundary, 0.2, 0.5, "interior", 2))
-    return cells
+                    if cell not in det:
+                        rest.append(cell)
+    return det, rest
 
 
 def search(tier, hints):
     base = common.seed()
     n = 200000 if tier == "quick" else 500000
     kinds = {h.get("kind") for h in hints if h.get("kind")}
-    cells = _cells(tier)
+    det, rest = _cells(tier)
     if kinds:
-        cells.sort(key=lambda c: 0 if c[0] in kinds else 1)      # stable: suspected kernel first
+        det.sort(key=lambda c: 0 if c[0] in kinds else 1)      # stable sort: the suspected kernel first
+        rest.sort(key=lambda c: 0 if c[0] in kinds else 1)
     found, new = [], 0
-    for i, (kernel, boundary, sigma, beta, target, steps) in enumerate(cells):
-        seed = (base * 1000003 + 7919 * i + 17) % (2 ** 31 - 1)
-        r = one_step_cell(kernel, boundary, sigma, beta, target, seed, n=n, steps=steps)
-        if r["chi2_before"] > r["threshold"]:
-            raise common.LeanError(f"oracle self-check failed: exact sampler of target {target} has chi2 {r['chi2_before']}")
-        if r["fails"]:
-            f = {"what": f"one-step invariance violated: chi2={r['chi2']:.1f} > {r['threshold']:.1f} (p<1e-9, {NBINS} bins, N={n})",
-                 "kernel": kernel, "boundary": boundary, "sigma": sigma, "beta": beta, "target": target, "steps": steps,
-                 "seed": seed, "n": n, "chi2": r["chi2"], "edge_ratio": r["edge_ratio"]}
-            kid = known_id(kernel, boundary, target)
-            if kid:
-                f["known_id"] = kid
-            else:
-                new += 1
-            found.append(f)
-            if new >= 3:
+    for phase, cells in (("det", det), ("rest", rest)):
+        for kernel, boundary, sigma, beta, target, steps in cells:
+            tag = f"{kernel}/{boundary}/{sigma}/{beta}/{target}/{steps}"
+            seed = (base * 1000003 + int(common.digest(tag), 16)) % (2 ** 31 - 1)
+            r = one_step_cell(kernel, boundary, sigma, beta, target, seed, n=n, steps=steps)
+            if r["chi2_before"] > r["threshold"]:
+                raise common.LeanError(f"oracle self-check failed: exact sampler of target {target} has chi2 {r['chi2_before']}")
+            if r["fails"]:
+                f = {"what": f"one-step invariance violated: chi2={r['chi2']:.1f} > {r['threshold']:.1f} (p<1e-9, {NBINS} bins, N={n})",
+                     "kernel": kernel, "boundary": boundary, "sigma": sigma, "beta": beta, "target": target, "steps": steps,
+                     "seed": seed, "n": n, "chi2": r["chi2"], "edge_ratio": r["edge_ratio"]}
+                kid = known_id(kernel, boundary, target)
+                if kid:
+                    f["known_id"] = kid
+                else:
+                    new += 1
+                found.append(f)
+        if new:
+            break       # a new violation is established; the boundary grid would only add the recorded ones
+        if phase == "det":
+            for kernel, boundary, rho, sigma, kid in CELLS_2D:
+                tag = f"2d/{kernel}/{boundary}/{rho}/{sigma}"
+                seed = (base * 1000003 + int(common.digest(tag), 16)) % (2 ** 31 - 1)
+                r = one_step_cell_2d(kernel, boundary, rho, sigma, seed, n=n)
+                if r["fails"]:
+                    f = {"what": f"one-step invariance violated in d=2: chi2={r['chi2']:.1f} > {r['threshold']:.1f} (p<1e-9, 5x5 bins, N={n})",
+                         "kernel": kernel, "boundary": boundary, "sigma": sigma, "beta": 1.0, "target": "uniform", "dim": 2, "rho": rho,
+                         "seed": seed, "n": n, "chi2": r["chi2"], "corner_ratio": r["corner_ratio"]}
+                    if kid:
+                        f["known_id"] = kid
+                    else:
+                        new += 1
+                    found.append(f)
+            if new:
                 break
-    # unknown findings first
-    found.sort(key=lambda f: 1 if "known_id" in f else 0)
+    found.sort(key=lambda f: 1 if "known_id" in f else 0)      # unknown findings first
     return found
 
 
@@ -517,6 +584,10 @@ def replay(obj):
     if "kernel" not in f:
         return {"fails": None, "detail": "no concrete failing input recorded (broken obligation only): "
                                          + "; ".join(obj.get("broken_obligations", [])[:5])}
+    if f.get("dim") == 2:
+        r = one_step_cell_2d(f["kernel"], f["boundary"], f["rho"], f["sigma"], f["seed"], n=f.get("n", 200000))
+        return {"fails": bool(r["fails"]), "detail": f"chi2={r['chi2']:.1f} threshold={r['threshold']:.1f} "
+                                                     f"(before step: {r['chi2_before']:.1f}) corners={r['corner_ratio']}"}
     r = one_step_cell(f["kernel"], f["boundary"], f["sigma"], f["beta"], f["target"], f["seed"], n=f.get("n", 200000),
                       steps=f.get("steps", 1))
     return {"fails": bool(r["fails"]), "detail": f"chi2={r['chi2']:.1f} threshold={r['threshold']:.1f} "
